@@ -7,12 +7,14 @@ A case is a JSON dict describing one *valid* CID plus a rewrite program:
      "bad_examples": [text or None per field row], "expect": {"fields": [[name, class, empty, rule], ...],
      "checks": [[description, class, rule], ...], "attrs": {data format attribute: value}},
      "ops": [{"kind": rewrite kind, "picks": [int, ...], "texts": [str, ...]}, ...], "salt": int, "csv": bool,
-     "all_variants": bool}
+     "mode": "rewrites" | "defects" | "both", "all_variants": bool}
 
 ``check_case`` (a) loads the CID, compares it with what the generator declared, applies the rewrite program and
 compares the rewritten CID with the unrewritten one; (b) applies every catalogue defect at every applicable row of
-the (rewritten) valid CID, one defect at a time, and judges the outcome.  Everything is deterministic given the case
-(the rewrite program is interpreted from ``picks``), so a saved case replays without Hypothesis.
+the (rewritten) valid CID, one defect at a time, and judges the outcome.  ``"mode"`` selects what is judged:
+``"rewrites"`` = (a) only, ``"defects"`` = (b) on the rewritten CID (the rewrite itself is not judged there), ``"both"``
+(seed CIDs).  Everything is deterministic given the case (the rewrite program is interpreted from ``picks``), so a
+saved case replays without Hypothesis.
 """
 import codecs
 import csv
@@ -34,20 +36,22 @@ RULE = (
     "decimal and thousands separator, header, sheet, allowed characters), 1..6 fields of all 8 types from "
     "vlib/gen_fields.py (optionally with an example the reference model accepts), 0..3 checks (IsUnique over 1..3 "
     "declared fields, DistinctCount 'field <op> n') - loaded with Cid.read(name, rows) and, when no cell holds a line "
-    "break, with interface.create_cid_from_string(csv text); the loaded CID must show the generated field names, "
-    "classes, empty flags, rules, check names/classes/rules and data format attributes. (a) 0..5 meaning-preserving "
-    "rewrites composed at random (comment rows with empty first cell, empty rows, trailing cells beyond column 3/7/4, "
-    "dropped trailing empty cells of field rows, row markers in either case with blanks, property/format names and "
-    "symbolic values in any case, blanks around field name/mark/type/rule, x/X, permuted property rows): must stay "
-    "accepted with identical field_names, (class, empty flag, str(length), rule) per field, check_names with (class, "
-    "rule) and data format attributes. (b) every entry of a catalogue of 53 structural defects applied alone at every "
-    "applicable row of the (rewritten) valid CID: must raise InterfaceError whose text names that row as (R<n>C<m>) "
-    "first; defects that only show when the CID is completed (no fields, no data format, data format after the "
-    "fields, contradictory properties) are judged by exception class only; settings whose acceptance is undocumented "
-    "(Integer with length 0, bad value for the undocumented 'skip initial space') may be accepted but a rejection must "
-    "have that form. Any other exception type is a discrepancy. Exhaustive part: every variant of every catalogue "
-    "entry at every applicable row of 5 fixed seed CIDs. A case is non-trivial when it has >= 2 rows of one kind "
-    "(a defect lands on a row other than the first of its kind) or >= 2 rewrites; distinct by hash of rows + program."
+    "break, with interface.create_cid_from_string(csv text); the loaded CID must show the generated field names in "
+    "order, classes, empty flags, rules, check names/classes/rules and data format attributes. Part 'rewrites': 1..5 "
+    "meaning-preserving rewrites composed at random (comment rows with empty first cell, empty rows, trailing cells "
+    "beyond column 3/7/4, dropped trailing empty cells of field rows, row markers in either case with blanks, "
+    "property/format names and symbolic values in any case, blanks around field name/mark/type/rule, x/X, permuted "
+    "property rows): must stay accepted with identical field_names, (class, empty flag, str(length), rule) per "
+    "field, check_names with (class, rule) and data format attributes. Part 'defects': every entry of a catalogue of "
+    "56 structural defects applied alone at every applicable row of a valid CID decorated with 0..4 such rewrites: "
+    "must raise InterfaceError whose text names that row as (R<n>C<m>) first; defects that only show when the CID is "
+    "completed (no fields, no data format, data format after the fields, contradictory properties) are judged by "
+    "exception class only; settings whose acceptance is undocumented (Integer with length 0, bad value for the "
+    "undocumented 'skip initial space', empty item in a Decimal rule, DateTime place holder used twice) may be "
+    "accepted but a rejection must have that form. Any other exception type is a discrepancy. Exhaustive part: every "
+    "variant of every catalogue entry at every applicable row of 10 fixed seed CIDs (5 format kinds, plain and with "
+    "comment/empty rows). A case is non-trivial when it has >= 2 rows of one kind (a defect lands on a row other than "
+    "the first of its kind) or >= 2 rewrites; distinct by hash of rows + rewrite program."
 )
 ASSUMPTIONS = [
     "neutral, never judged: a check between field rows naming only earlier fields; overlapping range items; 'csv' as "
@@ -63,7 +67,7 @@ ASSUMPTIONS = [
     "by codec), tokenize, re",
 ]
 EXHAUSTIVE = True
-EXHAUSTIVE_SCOPE = ("every variant of the 53 catalogue defects at every applicable row of 5 fixed seed CIDs (one per "
+EXHAUSTIVE_SCOPE = ("every variant of the 56 catalogue defects at every applicable row of 5 fixed seed CIDs (one per "
                     "format kind, all 8 field types, both check types), plain and decorated with comment rows")
 
 _LOCATION_REGEX = re.compile(r"\(R([0-9]+)C([0-9]+)\)")
@@ -146,10 +150,13 @@ INTEGER_LENGTH_0 = ["0", "0...0", "...0"]
 BAD_RULES = {
     "Integer": ["abc", "5...1", "1...2...3", "1.5...2", "(", "...", "1 2", "1...x", '"ab"'],
     "Decimal": ["abc", "5.5...1.1", "1...2...3", "...", "1 2", "(", "1.5...x"],
-    "Choice": ["a,,b", ",a", "a,", "a b", '"a', "a,b,", '"a" "b"'],
+    "Choice": ["a,,b", ",a", "a b", '"a', '"a" "b"', "a,,", "a;b"],
     "Constant": ['"a" "b"', "a b", "1 2", '"a", "b"', "a,"],
     "RegEx": ["(", "[a", "*a", "a{2,1}", "(?P<n>a)(?P<n>b)", "\\", ")", "a(b", "(?z)a", "+"],
 }
+# acceptance undocumented; a rejection must still be an InterfaceError naming the row
+DECIMAL_EMPTY_ITEM = [",1", ", 1...2", ",", ",1.5, 3"]
+DATETIME_DUPLICATE = [("DD.DD", "01.01"), ("hh:hh", "10:10"), ("YYYY-YYYY", "2000-2000"), ("MM/DD/MM", "01/02/01")]
 CHECK_TYPE_UNKNOWN = ["NoSuchCheck", "Unique", "Distinct", "IsUniqueCheck", "Count", "Is Unique"]
 MARKERS_UNKNOWN = ["x", "dd", "field", "#", "1", "\xe9", "FD", "d f", "check", "-"]
 COMMENT_TEXTS = ["", "D", "F", "C", "Format", "x", "X", "\xe4\xf6\xfc", '"', ",", "  ", "1...5", "Name", "Example",
@@ -594,8 +601,9 @@ def defect_cases(case, tagged):
     others = [n for f, n in sorted(FORMAT_NAMES.items()) if f != fmt]
     for i in d_rows + [f_rows[-1], len(tagged) - 1]:
         for value in variants([FORMAT_NAMES[fmt], FORMAT_NAMES[fmt].lower()] + others, i):
-            yield case_of("D-format-twice", value, inserted(i + 1, ["D", "Format", value]), i + 2,
-                          "after-" + tagged[i][0], position(i))
+            for name in variants(["Format", "format", "FORMAT"], i + len(value)):
+                yield case_of("D-format-twice", value, inserted(i + 1, ["D", name, value]), i + 2,
+                              "after-" + tagged[i][0], position(i))
     for value in variants(["no_such_format", "xml", "json", "", "delimited fixed", "text", "xls", "calc"], 0):
         cells = _pad(tagged[format_row][1], 3)
         cells[2] = value
@@ -694,6 +702,13 @@ def defect_cases(case, tagged):
         if type_name in BAD_RULES:
             for value in variants(BAD_RULES[type_name], i):
                 yield field_defect("F-rule-" + type_name.lower(), value, rule=value, example="")
+        if type_name == "Decimal":
+            for value in variants(DECIMAL_EMPTY_ITEM, i):
+                yield field_defect("F-rule-decimal-empty-item", value, mode="form", rule=value, example="")
+        if type_name == "DateTime" and not fixed:
+            for rule, example in variants(DATETIME_DUPLICATE, i):
+                yield field_defect("F-rule-datetime-duplicate-placeholder", rule, mode="form", rule=rule,
+                                   example=example, length="")
         if type_name == "Constant" and original[6].strip() != "":
             yield field_defect("F-constant-empty-mark", "X with a rule", mark="X", example="")
         if number < len(bad_examples) and bad_examples[number]:
@@ -741,6 +756,10 @@ def defect_cases(case, tagged):
             yield case_of("C-before-fields", check_type, inserted(f_rows[0], original), f_rows[0] + 1, kind, where)
         else:
             yield case_of("C-before-fields", check_type, moved(i, f_rows[0]), f_rows[0] + 1, kind, where)
+        if i is None:
+            yield case_of("C-before-format", check_type, inserted(format_row, original), format_row + 1, kind, where)
+        else:
+            yield case_of("C-before-format", check_type, moved(i, format_row), format_row + 1, kind, where)
         latest = max(names.index(n) for n in referenced)
         if latest == 0 and len(names) > 1 and i is None:
             latest = len(names) - 1
@@ -797,7 +816,7 @@ def defect_cases(case, tagged):
                 yield check_defect("C-distinctcount-no-field-first", pattern, rule=rule)
 
 
-DEFECT_COUNT = 53
+DEFECT_COUNT = 56
 
 
 def judge_defect(sub, case, defect, via):
